@@ -212,62 +212,7 @@ def run(ctx):
         rec = fx.fns[ee[0]]
         fn = F(rec)
         r3.saw(len(fn.g))
-        seen = set()
-        for eb, nm, t in fn.calls(lambda n: re.search(r'eval::ops::BinaryOp as core::cmp::PartialEq>::eq$', n) is not None):
-            var = _promoted_variant(rec, fn, t['a'][1]) or _promoted_variant(rec, fn, t['a'][0])
-            if var not in ('And', 'Or'):
-                continue
-            seen.add(var)
-            key = 'short-circuit|%s' % var
-            # the branch taken when op == var
-            res = t['d'][0]
-            tt = None
-            for sb in fn.reach_after(eb):
-                st = fn.term(sb)
-                if st['k'] == 'switch' and op_local(st['d']) == res:
-                    ex = {int(v): tb for v, tb in st['v']}
-                    tt = st['o'] if 0 in ex else ex.get(1)
-                    break
-            if tt is None:
-                r3.bad(key, 'the result of `op == BinaryOp::%s` is not branched on' % var, loc=fn.loc(eb))
-                continue
-            selfc = [b for b, _, _ in fn.calls(lambda n: n == ee[0])]
-            region = fn.reach([tt])
-            firsts = [b for b in selfc if b in fn.reach([tt], avoid=set(selfc) - {b})]
-            if len(firsts) != 1:
-                r3.bad(key, 'could not identify the evaluation of the left operand in the %s branch' % var, loc=fn.loc(tt))
-                continue
-            L = firsts[0]
-            rights = [b for b in selfc if b != L and b in fn.reach_after(L)]
-            if not rights:
-                r3.bad(key, 'the %s branch evaluates only one operand' % var, loc=fn.loc(L))
-                continue
-            # locals carrying the left value
-            carry = _forward_locals(fn, fn.term(L)['d'][0])
-            okb = False
-            for sb in fn.reach_after(L, avoid=set(rights)):
-                st = fn.term(sb)
-                if st['k'] != 'switch' or st['d'][0] not in ('c', 'm'):
-                    continue
-                base, proj = st['d'][1][0], st['d'][1][1]
-                if base not in carry or not any(isinstance(e, list) and e[0] == 'd' and e[1] == 'Bool' for e in proj):
-                    continue
-                ex = {int(v): tb for v, tb in st['v']}
-                false_t = ex.get(0, None if 1 not in ex else st['o'])
-                true_t = ex.get(1, st['o'] if 0 in ex else None)
-                early = false_t if var == 'And' else true_t
-                if early is None:
-                    continue
-                after = fn.reach([early])
-                if not any(r in after for r in selfc):
-                    okb = True
-            if okb:
-                r3.ok(key, loc=fn.loc(L))
-            else:
-                r3.bad(key, 'in the %s branch the right operand is evaluated on every path, also when the left operand is %s: the right side\'s side effects and faults leak (IEC short-circuit evaluation)' % (var, 'FALSE' if var == 'And' else 'TRUE'), loc=fn.loc(rights[0]))
-        for var in ('And', 'Or'):
-            if var not in seen:
-                r3.bad('short-circuit|%s' % var, 'eval_expr has no separate branch for BinaryOp::%s: both operands are evaluated before the operator is applied' % var, loc=fn.loc(0))
+        _short_circuit(fx, rec, fn, ee[0], r3)
 
     r4 = ctx.rule('C02.R4', 'loop tests placed per IEC: WHILE/FOR test before the body, REPEAT body before the test; FOR leaves when the control value has passed the end in the direction of the step', floor=6)
     es = fx.fns.get('trust_runtime::eval::stmt::exec_stmt')
@@ -628,3 +573,174 @@ def _cycle_avoiding(fn, comp, B, avoid):
             if s in comp and s not in avoid and s not in seen:
                 todo.append(s)
     return False
+
+
+def _short_circuit(fx, rec, fn, fid, r3):
+    """Under the assumption (op = AND, left = BOOL FALSE) - and (op = OR, left = BOOL TRUE) - no path of the Binary arm
+    evaluates a second operand: every edge whose condition contradicts the assumption (a test of the operator or of the
+    left value with another outcome) is removed, then no recursive evaluation may be reachable after the first one.
+    Independent of how the tests are written (`op == And`, `match (op, &left)`, `matches!`)."""
+    op_adt = fx.adts.get('trust_runtime::eval::ops::BinaryOp')
+    val_adt = fx.adts.get('trust_runtime::value::types::Value')
+    ex_adt = fx.adts.get('trust_runtime::eval::expr::ast::Expr')
+    if not op_adt or not val_adt or not ex_adt:
+        r3.bad('anchor-missing|adts', 'BinaryOp / Value / Expr not found')
+        return
+    op_names = [v['name'] for v in op_adt['variants']]
+    val_names = [v['name'] for v in val_adt['variants']]
+    ex_names = [v['name'] for v in ex_adt['variants']]
+    # the Binary arm: target of the switch on discriminant(*expr)
+    arm = None
+    for b in fn.g:
+        t = fn.term(b)
+        if t['k'] != 'switch' or op_local(t['d']) is None:
+            continue
+        dd = fn.defs.get(op_local(t['d']), [])
+        if len(dd) == 1 and dd[0][1] == 'A' and dd[0][2][0] == 'discr' and dd[0][2][1][0] == 2 and len(t['v']) >= 5:
+            targets = {int(v): tb for v, tb in t['v']}
+            all_t = set(targets.values()) | {t['o']}
+            bi = ex_names.index('Binary') if 'Binary' in ex_names else None
+            if bi in targets:
+                arm = (targets[bi], all_t - {targets[bi]})
+    if arm is None:
+        r3.bad('anchor-missing|binary-arm', 'the Expr::Binary arm of eval_expr was not found')
+        return
+    entry, others = arm
+    region = fn.reach([entry], avoid=others)
+    selfc = [b for b, _, _ in fn.calls(lambda n: n == fid) if b in region]
+    Lset = [b for b in selfc if b in fn.reach([entry], avoid=others | (set(selfc) - {b}))]
+    Rset = [b for b in selfc if b not in Lset]
+    if not Lset or not Rset:
+        for var in ('And', 'Or'):
+            r3.bad('short-circuit|%s' % var, 'the Binary arm does not evaluate its operands by two recursive calls (shape not recognised)', loc=fn.loc(entry))
+        return
+    # roles of locals: the operator, the left value
+    roles, troles = {}, {}
+    for l in range(len(rec['locals'])):
+        if re.match(r'^&?(mut )?trust_runtime::eval::ops::BinaryOp$', rec['locals'][l]):
+            roles[l] = 'op'
+    for L in Lset:
+        roles[fn.term(L)['d'][0]] = 'left'
+
+    def role_place(pl):
+        base, proj = pl[0], pl[1]
+        if proj and isinstance(proj[0], list) and proj[0][0] == 'f' and (base, str(proj[0][1])) in troles:
+            return troles[(base, str(proj[0][1]))]
+        return roles.get(base)
+
+    def role_op(o):
+        return role_place(o[1]) if o[0] in ('c', 'm') else None
+    changed = True
+    while changed:
+        changed = False
+        for b in region:
+            for st in fn.bbs[b]['s']:
+                if st[0] != 'A' or st[1][1]:
+                    continue
+                d, rv = st[1][0], st[2]
+                r = None
+                if rv[0] == 'use':
+                    r = role_op(rv[1])
+                elif rv[0] == 'ref':
+                    r = role_place(rv[2])
+                elif rv[0] == 'agg' and rv[1] == 'tuple':
+                    for i, o in enumerate(rv[2]):
+                        ro = role_op(o)
+                        if ro and troles.get((d, str(i))) != ro:
+                            troles[(d, str(i))] = ro
+                            changed = True
+                if r and roles.get(d) != r and d not in roles:
+                    roles[d] = r
+                    changed = True
+            t = fn.term(b)
+            if t['k'] == 'call' and _TRYB.search(fn.call_name(b) or '') and t['a'] and not t['d'][1]:
+                r = role_op(t['a'][0])
+                if r and t['d'][0] not in roles:
+                    roles[t['d'][0]] = r
+                    changed = True
+    # tests
+    op_sw, val_sw, pay_sw, op_eq = [], [], [], []
+    for b in region:
+        t = fn.term(b)
+        if t['k'] == 'switch' and t['d'][0] in ('c', 'm'):
+            base, proj = t['d'][1]
+            src = None
+            if not proj:
+                dd = fn.defs.get(base, [])
+                if len(dd) == 1 and dd[0][1] == 'A':
+                    rv = dd[0][2]
+                    if rv[0] == 'discr':
+                        r = role_place(rv[1])
+                        if r == 'op':
+                            op_sw.append(b)
+                        elif r == 'left':
+                            val_sw.append(b)
+                        continue
+                    if rv[0] == 'use' and rv[1][0] in ('c', 'm'):
+                        src = rv[1][1]
+            else:
+                src = [base, proj]
+            if src and role_place(src) == 'left' and any(isinstance(e, list) and e[0] == 'd' and e[1] == 'Bool' for e in src[1]):
+                pay_sw.append(b)
+    for b, nm, t in fn.calls(lambda n: re.search(r'eval::ops::BinaryOp as core::cmp::PartialEq>::(eq|ne)$', n) is not None or n == 'core::cmp::PartialEq::ne'):
+        if b not in region:
+            continue
+        if nm == 'core::cmp::PartialEq::ne' and not any('BinaryOp' in g for g in (t['f'].get('ga') or [])):
+            continue
+        var = _promoted_variant(rec, fn, t['a'][1]) or _promoted_variant(rec, fn, t['a'][0])
+        if var:
+            op_eq.append((b, nm.endswith('::eq'), var))
+    r3.note('Binary arm: %d first / %d later operand evaluations; operator tests %d (switch) + %d (==); left-value tests %d (variant) + %d (BOOL payload)' % (
+        len(Lset), len(Rset), len(op_sw), len(op_eq), len(val_sw), len(pay_sw))) if hasattr(r3, 'note') else None
+
+    def sw_cut(b, names, want):
+        """edges of the discriminant switch at b that contradict `variant == want`"""
+        t = fn.term(b)
+        cut, keep = set(), set()
+        explicit = set()
+        for v, tb in t['v']:
+            v = int(v)
+            explicit.add(names[v] if v < len(names) else None)
+            (keep if (v < len(names) and names[v] == want) else cut).add((b, tb))
+        if t.get('o') is not None:
+            (cut if want in explicit else keep).add((b, t['o']))
+        return cut - keep
+
+    for var, lit in (('And', 0), ('Or', 1)):
+        key = 'short-circuit|%s' % var
+        cut = set()
+        for b in op_sw:
+            cut |= sw_cut(b, op_names, var)
+        for b in val_sw:
+            cut |= sw_cut(b, val_names, 'Bool')
+        for b in pay_sw:
+            t = fn.term(b)
+            keep, c2, explicit = set(), set(), set()
+            for v, tb in t['v']:
+                explicit.add(int(v))
+                (keep if int(v) == lit else c2).add((b, tb))
+            if t.get('o') is not None:
+                (c2 if lit in explicit else keep).add((b, t['o']))
+            cut |= (c2 - keep)
+        for b, is_eq, k in op_eq:
+            pos, neg, _ = call_result_edges(fn, b)
+            if not is_eq:
+                pos, neg = neg, pos
+            cut |= (neg if k == var else pos)
+        alive = fn.reach([entry], avoid=others, removed_edges=cut)
+        offending = None
+        for L in Lset:
+            if L not in alive:
+                continue
+            after = fn.reach_after(L, removed_edges=cut, avoid=others)
+            hit = [r for r in selfc if r in after]
+            if hit:
+                offending = (L, hit[0])
+                break
+        if not any(L in alive for L in Lset):
+            r3.bad(key, 'under op = %s no evaluation of the left operand is reachable (shape not recognised)' % var.upper(), loc=fn.loc(entry))
+        elif offending:
+            r3.bad(key, 'with op = %s and the left operand %s the right operand is still evaluated (line %d): the right side\'s side effects and faults leak (IEC short-circuit evaluation)' % (
+                var.upper(), 'FALSE' if var == 'And' else 'TRUE', fn.line(offending[1])), loc=fn.loc(offending[1]))
+        else:
+            r3.ok(key, loc=fn.loc(Lset[0]))
